@@ -11,8 +11,6 @@ import (
 	"sort"
 	"strings"
 
-	"golang.org/x/tools/go/callgraph"
-	"golang.org/x/tools/go/callgraph/cha"
 	"golang.org/x/tools/go/packages"
 	"golang.org/x/tools/go/ssa"
 	"golang.org/x/tools/go/ssa/ssautil"
@@ -64,8 +62,8 @@ type World struct {
 	// LibFuncs are all SSA functions (incl. methods and closures) whose source is in a library package.
 	LibFuncs []*ssa.Function
 	funcIdx  map[string]*ssa.Function
-	cg       *callgraph.Graph
 	allFuncs map[*ssa.Function]bool
+	cidx     *callIndex
 
 	PackagesAnalysed    []string
 	PackagesNotAnalysed []string
@@ -153,6 +151,36 @@ func Load(repo string, bc BuildConfig) (*World, error) {
 		w.SSA[rel(lib[i].PkgPath)] = sp
 	}
 	w.allFuncs = ssautil.AllFunctions(prog)
+	// add every method of every named type of the library packages (ssautil.AllFunctions only
+	// visits exported types and types boxed into interfaces) and the closures inside them
+	var addFn func(fn *ssa.Function)
+	addFn = func(fn *ssa.Function) {
+		if fn == nil || w.allFuncs[fn] {
+			return
+		}
+		w.allFuncs[fn] = true
+		for _, a := range fn.AnonFuncs {
+			addFn(a)
+		}
+	}
+	for _, sp := range w.SSA {
+		for _, m := range sp.Members {
+			t, ok := m.(*ssa.Type)
+			if !ok {
+				continue
+			}
+			named, ok := t.Type().(*types.Named)
+			if !ok || named.TypeParams() != nil || types.IsInterface(named) {
+				continue
+			}
+			for _, T := range []types.Type{named, types.NewPointer(named)} {
+				ms := prog.MethodSets.MethodSet(T)
+				for i := 0; i < ms.Len(); i++ {
+					addFn(prog.MethodValue(ms.At(i)))
+				}
+			}
+		}
+	}
 	for fn := range w.allFuncs {
 		if fn.Pkg == nil || fn.Synthetic != "" {
 			continue
@@ -210,14 +238,6 @@ func (w *World) FuncsIn(pkg string) []*ssa.Function {
 		}
 	}
 	return out
-}
-
-// CG returns the CHA call graph of P_L (computed on first use).
-func (w *World) CG() *callgraph.Graph {
-	if w.cg == nil {
-		w.cg = cha.CallGraph(w.Prog)
-	}
-	return w.cg
 }
 
 // Pos renders a position relative to the repository root.
